@@ -5,6 +5,7 @@ import (
 	"math/rand/v2"
 	"sort"
 	"strings"
+	"sync"
 
 	"verifharness/lib/dmodel"
 )
@@ -46,12 +47,13 @@ func uniq(m *dmodel.Model) *dmodel.Model {
 	return m
 }
 
-// union merges the models into one schema; part i gets the suffix m<i> on its tables and enums.
-func union(d dmodel.Dialect, name, schemaName, prefix string, parts []*dmodel.Model) *dmodel.Model {
+// union merges the models into one schema; part i gets the suffix m<nums[i]> on its tables and enums
+// (the number is the model's index in the pool, so that a table has the same name in every union).
+func union(d dmodel.Dialect, name, schemaName, prefix string, parts []*dmodel.Model, nums []int) *dmodel.Model {
 	out := &dmodel.Model{Dialect: d, Name: name, Schema: schemaName}
 	for i, p := range parts {
 		c := p.Clone()
-		suf := fmt.Sprintf("m%d", i)
+		suf := fmt.Sprintf("m%d", nums[i])
 		if out.Charset == "" && c.Charset != "" {
 			out.Charset, out.Collation = c.Charset, c.Collation
 		}
@@ -163,25 +165,29 @@ func walk(m *dmodel.Model, k int, r *rand.Rand) (*dmodel.Model, []string) {
 func bigModels(seed uint64, d dmodel.Dialect) (all, half, aux *dmodel.Model) {
 	pool := hclOK(dmodel.Pool(d))
 	r := rand.New(rand.NewPCG(seed, 0xC20<<8|uint64(len(d))))
-	all = union(d, "all", schemaOf(d), "", pool)
+	ident := make([]int, len(pool))
+	for i := range ident {
+		ident[i] = i
+	}
+	all = union(d, "all", schemaOf(d), "", pool, ident)
 	crossFKs(all, r)
 	idx := r.Perm(len(pool))
-	var sub []*dmodel.Model
-	for _, i := range idx[:len(pool)/2] {
-		sub = append(sub, pool[i])
+	pick := func(ix []int) (ms []*dmodel.Model) {
+		for _, i := range ix {
+			ms = append(ms, pool[i])
+		}
+		return
 	}
-	half = union(d, "half", schemaOf(d), "", sub)
+	h := idx[:len(pool)/2]
+	half = union(d, "half", schemaOf(d), "", pick(h), h)
 	crossFKs(half, r)
-	var rest []*dmodel.Model
-	for _, i := range idx[len(pool)/2:] {
-		rest = append(rest, pool[i])
-	}
+	rest := idx[len(pool)/2:]
 	if len(rest) > 6 {
 		rest = rest[:6]
 	}
 	// Tables and enums of the two schemas of one realm must not collide in the HCL name space
 	// (unqualified references): everything in the second schema is prefixed with x.
-	aux = union(d, "aux", secondSchema(d), "x", rest)
+	aux = union(d, "aux", secondSchema(d), "x", pick(rest), rest)
 	crossFKs(aux, r)
 	return all, half, aux
 }
@@ -196,9 +202,32 @@ func schemaOf(d dmodel.Dialect) string {
 	return "main"
 }
 
-// Inputs returns the seeded inputs of a dialect. nEdit is the number of edited variants.
+// plansOK reports whether Atlas diffs and plans from -> to without an error.
+func plansOK(d dmodel.Dialect, from, to *dmodel.Model) bool {
+	_, _, err := diffPlan(&Input{Dialect: d, From: from, To: to})
+	return err == nil
+}
+
+// goodWalk draws seeded edit walks until Atlas can plan the change in both directions (some catalogue
+// edits are changes the community planners refuse, e.g. turning a column into a generated one); after
+// 8 refused walks the last one is used as it is (the refusal is then an output like any other).
+func goodWalk(d dmodel.Dialect, base *dmodel.Model, k int, r *rand.Rand) (*dmodel.Model, []string) {
+	var to *dmodel.Model
+	var ids []string
+	for try := 0; try < 8; try++ {
+		to, ids = walk(base, k, r)
+		if plansOK(d, base, to) && plansOK(d, to, base) {
+			break
+		}
+	}
+	return to, ids
+}
+
+// Inputs returns the seeded inputs of a dialect. nEdit is the number of edited variants. SQLite has no
+// multi-schema inputs (its planner refuses AddSchema / DropSchema).
 func Inputs(seed uint64, d dmodel.Dialect, nEdit int) []*Input {
 	all, half, aux := bigModels(seed, d)
+	realms := d != dmodel.SQLite
 	var out []*Input
 	add := func(in *Input) {
 		in.Dialect = d
@@ -209,30 +238,44 @@ func Inputs(seed uint64, d dmodel.Dialect, nEdit int) []*Input {
 	add(&Input{Name: "drop-all", From: all})
 	add(&Input{Name: "create-half", To: half})
 	add(&Input{Name: "half-to-all", From: half, To: all})
-	add(&Input{Name: "realm-create", To: all, To2: aux, Realm: true})
-	add(&Input{Name: "realm-drop", From: all, From2: aux, Realm: true})
+	add(&Input{Name: "all-to-half", From: all, To: half})
+	if realms {
+		add(&Input{Name: "realm-create", To: all, To2: aux, Realm: true})
+		add(&Input{Name: "realm-drop", From: all, From2: aux, Realm: true})
+	}
+	// the edit walks are independent of each other (own PRNG streams): built in parallel
+	edits := make([]*Input, nEdit)
+	var wg sync.WaitGroup
 	for i := 0; i < nEdit; i++ {
-		r := rand.New(rand.NewPCG(seed, 0xED17<<16|uint64(i)<<4|uint64(len(d))))
-		base := all
-		if i%3 == 1 {
-			base = half
-		}
-		k := 6 + r.IntN(10)
-		to, ids := walk(base, k, r)
-		in := &Input{Name: fmt.Sprintf("edit-%s-%d", base.Name, i), From: base, To: to, Edits: ids}
-		if i%4 == 3 {
-			// multi-schema: the second schema is edited too, or appears / disappears.
-			in.Realm = true
-			switch (i / 4) % 3 {
-			case 0:
-				in.From2 = aux
-				in.To2, _ = walk(aux, 4+r.IntN(4), r)
-			case 1:
-				in.To2 = aux
-			default:
-				in.From2 = aux
+		wg.Add(1)
+		go func(i int) {
+			defer wg.Done()
+			r := rand.New(rand.NewPCG(seed, 0xED17<<16|uint64(i)<<4|uint64(len(d))))
+			base := all
+			if i%3 == 1 {
+				base = half
 			}
-		}
+			k := 6 + r.IntN(10)
+			to, ids := goodWalk(d, base, k, r)
+			in := &Input{Name: fmt.Sprintf("edit-%s-%d", base.Name, i), From: base, To: to, Edits: ids}
+			if i%4 == 3 && realms {
+				// multi-schema: the second schema is edited too, or appears / disappears.
+				in.Realm = true
+				switch (i / 4) % 3 {
+				case 0:
+					in.From2 = aux
+					in.To2, _ = goodWalk(d, aux, 4+r.IntN(4), r)
+				case 1:
+					in.To2 = aux
+				default:
+					in.From2 = aux
+				}
+			}
+			edits[i] = in
+		}(i)
+	}
+	wg.Wait()
+	for _, in := range edits {
 		add(in)
 	}
 	return out
